@@ -123,16 +123,17 @@ def run(rep: common.Report, tier: str, seed: int):
             if files:
                 rep.violation(f'C08/{kind}/empty-writer-wrote-files', f'a {kind} writer holding no object wrote {files}', {'input': case})
             continue
-        if files != [expected]:
+        if files != [expected] and not (raised and files == []):
             rep.violation(f'C08/{kind}/file-name', f'expected exactly {expected}, found {files}', {'input': case, 'files': files})
             continue
-        text = pgm.read_file(expected)
+        written = files == [expected]        # (an exception in __exit__, e.g. homing below the printable feed, leaves no file)
+        text = pgm.read_file(expected) if written else ''
         tm = pgm.t_matrix_of(cfgd)
         it = lexer.Interner()
         toks = lexer.lex(text, it)
         order = clist(clist(cz(int(round(2 * k))) for k in n.adj_scan_order) for n in objs) if kind == 'NASU' else '[]'
-        lits.append('{| k_cfg := %s; k_job := %s; k_toks := %s; k_written := true; k_raised := %s; k_order := %s |}' % (
-            pgm.cfg_literal(cfgd, tm), job_lit(kind, objs), lexer.toks_literal(toks), cn(raised), order))
+        lits.append('{| k_cfg := %s; k_job := %s; k_toks := %s; k_written := %s; k_raised := %s; k_order := %s |}' % (
+            pgm.cfg_literal(cfgd, tm), job_lit(kind, objs), lexer.toks_literal(toks), cb(written), cn(raised), order))
         cases.append(case)
         for o in (objs if kind != 'WG' else [m for g in objs for m in (g if isinstance(g, list) else [g])]):
             hist['scans'][o.scan] = hist['scans'].get(o.scan, 0) + 1
